@@ -172,6 +172,11 @@ def _rf_post(ctx):
     if ctx.exc is not None:
         REC.violation(PROP, mon, "readFramesAtTimes", case, "raised %s: %s" % (type(ctx.exc).__name__, ctx.exc), sig, mech)
         return
+    if type(ctx.result) is not bytes:
+        # "returns ... the samples": as the immutable frame string the signature announces (`-> bytes`) - a bytearray is one that the
+        # next in-place `+=` of a Wav built from it rewrites for everyone who holds it
+        REC.violation(PROP, mon, "readFramesAtTimes", case, "returned a %s, not bytes" % type(ctx.result).__name__, ("rfats", "type"), dict(mech, result_type=type(ctx.result).__name__))
+        return
     got = bytes(ctx.result)
     if rep is not None and all(W.on_grid(t, rate) for ab in srt for t in ab):
         # "for boundaries on sample positions, the result has the original length and every kept sample is at its original
@@ -460,6 +465,14 @@ def _sp_post(ctx):
                 return
             for t, st in zip(want, sub["tiers"]):
                 kind = "I" if t["class"] == "IntervalTier" else "P"
+                if kind == "I":
+                    # "the optional cropped TextGrids span exactly [0, interval length]" - every interval tier in them does: what is not
+                    # labelled is written as blank intervals, a tier without anything under this entry as one blank from 0 to the end
+                    ivs = st["entries"]
+                    if not ivs or ivs[0][0] != 0 or not M.num_close(ivs[-1][1], length, scale) or any(x[1] != y[0] for x, y in zip(ivs, ivs[1:])):
+                        REC.violation(PROP, mon, "splitAudioOnTier", case, "cropped TextGrid for entry %d, tier %r: its intervals %r do not cover [0, %r] without gaps" % (
+                            k, t["name"], ivs[:6], float(length)), sig, dict(mech, coverage=True))
+                        return
                 src = [x for x in t["entries"] if x[-1] != ""]
                 exp, _, _ = M.crop(kind, src, t["xmin"], t["xmax"], e[0], e[1], mode, True)
                 obs = [x for x in st["entries"] if x[-1] != ""]
